@@ -29,6 +29,7 @@ META = dict(
          "cryptorandom is third-party.",
     technique="walk-order / take-iff / pairing rules over the AST, decision tables of the guards, effects (read/write sets)",
 )
+META["text"] += " (R7 = C06.R4) the consumer of the threshold keeps, position by position, exactly the cards whose sample number is within the contest's threshold."
 
 
 def card_expr(fn):
